@@ -620,8 +620,13 @@ func (fv *funcVerifier) callRepo(st *State, call *ast.CallExpr, fn *types.Func) 
 	}
 	args := fv.evalArgs(st, call, sig)
 	key := FuncKey(fn)
-	if sp := fv.prog.Specs.Funcs[key]; sp != nil && (len(sp.Requires) > 0 || len(sp.Ensures) > 0 || sp.Modifies != nil || sp.Pure || len(sp.Sets) > 0) {
+	if sp := fv.prog.Specs.Funcs[key]; sp != nil && (len(sp.Requires) > 0 || len(sp.Ensures) > 0 || sp.Modifies != nil || sp.Pure || len(sp.Sets) > 0 || len(sp.GhostExit) > 0) {
 		return fv.callWithSpec(st, call, fn, sp, recv, hasRecv, args)
+	}
+	// no contract: a callee that syntactically writes nothing but its own locals leaves the heap alone
+	if fv.prog.autoPure(key) {
+		fv.note("repo callee %s without contract: body writes only its own locals (syntactic check), heap kept; results unconstrained", key)
+		return fv.freshResults(st, call, fn.Name())
 	}
 	// default contract
 	if fv.opt.Sweep {
